@@ -28,7 +28,7 @@ Rfc(st, ev) ==
            [] ev = "Up"    -> IF st = "Init" THEN "Up" ELSE st
            [] ev = "Timer" -> IF st \in {"Init", "Up"} THEN "Down" ELSE st
 
-(* The relation as found in router/bfd (fsm.go `transition` driven by Session.Run with
+(* The relation as it is in router/bfd - open known finding D4 - (fsm.go `transition` driven by Session.Run with
    event(receivedState)): a received AdminDown moves every state to AdminDown, and nothing but the
    never generated eventAdminUp leaves AdminDown (DESIGN.md section 7, D4).                     *)
 Code(st, ev) == IF st = "AdminDown" \/ ev = "AdminDown" THEN "AdminDown" ELSE Rfc(st, ev)
